@@ -1030,7 +1030,7 @@ def check_gather_pairing(ck: Checker, rid: str, s: Srv):
             nres += 1
             if tgt != futn:
                 probs.append(f'L{n.lineno}: resolves `{tgt}`, not the future popped for this message (`{futn}`)')
-            if not (isinstance(payload, ast.Name) and payload.id == y):
+            if not ((isinstance(payload, ast.Name) and payload.id == y) or (isinstance(payload, ast.Attribute) and payload.attr == 'exc' and is_name(payload.value, y))):
                 probs.append(f'L{n.lineno}: resolves with `{norm_text(payload) if payload is not None else None}`, not this message\'s payload `{y}`')
             have = da.get(n.id, frozenset())
             for nm in (futn, y):
@@ -1061,8 +1061,7 @@ def check_delivery(ck: Checker, rid: str, s: Srv):
     probs = []
     nsites = 0
     unwrap = [n for n in cfg.nodes if isinstance(n.ast, ast.Assign) and isinstance(n.ast.value, ast.Attribute) and n.ast.value.attr == 'exc' and is_name(n.ast.targets[0], dotted(n.ast.value.value) or '')]
-    if not unwrap:
-        probs.append('a RemoteException payload is never unwrapped to the original exception')
+    direct_unwrap = 0
     for n in cfg.nodes:
         a = header_expr(n)
         if a is None or loop.id not in n.loops:
@@ -1075,6 +1074,14 @@ def check_delivery(ck: Checker, rid: str, s: Srv):
                 kind, payload = me, c.args[0] if c.args else None
             elif d.endswith('call_soon_threadsafe') and c.args and isinstance(c.args[0], ast.Attribute) and c.args[0].attr in ('set_result', 'set_exception'):
                 kind, payload = c.args[0].attr, c.args[1] if len(c.args) > 1 else None
+            # `fut.set_exception(y.exc)` under `isinstance(y, RemoteException)`: unwrapped at the point of delivery
+            if kind == 'set_exception' and isinstance(payload, ast.Attribute) and payload.attr == 'exc' and isinstance(payload.value, ast.Name):
+                if g.positive(n.id, payload.value.id, 'RemoteException'):
+                    direct_unwrap += 1
+                    nsites += 1
+                else:
+                    probs.append(f'L{n.lineno}: `.exc` is taken of a payload that is not proven a RemoteException')
+                continue
             if kind is None or not isinstance(payload, ast.Name):
                 continue
             nsites += 1
@@ -1089,6 +1096,8 @@ def check_delivery(ck: Checker, rid: str, s: Srv):
                     probs.append(f'L{n.lineno}: set_result reached with a payload that may be an exception: the failure would be delivered as a normal result')
                 if not all(any(f[0] == 'neg' and f[1] == y and f[2] == 'RemoteException' for f in d) or ('derived', y) in d for d in g.at(n.id)):
                     probs.append(f'L{n.lineno}: a RemoteException wrapper may be delivered as a normal result')
+    if not unwrap and not direct_unwrap:
+        probs.append('a RemoteException payload is never unwrapped to the original exception')
     if nsites < 2:
         probs.append('resolution sites not found')
     ck.ob(rid, s.gather, popn.ast, not probs, '; '.join(sorted(set(probs))) if probs else 'payload unwrapped from RemoteException; set_exception iff BaseException, set_result otherwise')
